@@ -226,6 +226,8 @@ pub fn plan_to(p: &Plan) -> Value {
         "sticky_fault": match p.sticky { None => Value::Null, Some((e, k)) => json!({"from_event": e, "kind": k.name()}) },
         "crash": match p.crash { None => Value::Null, Some((e, t)) => json!({"at_event": e, "torn_bytes": t}) },
         "flips": Value::Array(p.flips.iter().map(|f| json!({"after_event": f.after_event, "pos": f.pos, "xor": f.xor})).collect()),
+        "fault_at_write_call": match &p.fault_write { None => Value::Null, Some((i, st)) => json!({"index": i, "outcome": wstep_to(st)}) },
+        "fault_at_flush_call": match &p.fault_flush { None => Value::Null, Some((i, k)) => json!({"index": i, "err": k.name()}) },
     })
 }
 pub fn plan_from(v: &Value) -> R<Plan> {
@@ -259,7 +261,27 @@ pub fn plan_from(v: &Value) -> R<Plan> {
             xor: get_u64(f, "xor")? as u8,
         });
     }
-    Ok(Plan { writes: writes_from(get(v, "writes")?)?, rest, flushes, sticky, crash, flips })
+    let fault_write = match opt(v, "fault_at_write_call") {
+        None => None,
+        Some(x) => Some((get_usize(x, "index")?, wstep_from(get(x, "outcome")?)?)),
+    };
+    let fault_flush = match opt(v, "fault_at_flush_call") {
+        None => None,
+        Some(x) => Some((
+            get_usize(x, "index")?,
+            ErrKind::from_name(get_str(x, "err")?).ok_or("bad kind")?,
+        )),
+    };
+    Ok(Plan {
+        writes: writes_from(get(v, "writes")?)?,
+        rest,
+        flushes,
+        sticky,
+        crash,
+        flips,
+        fault_write,
+        fault_flush,
+    })
 }
 
 fn shape_to(s: &Option<(Shape, u64)>) -> Value {
